@@ -203,3 +203,17 @@ impl Allocators {
         }
     }
 }
+
+// Read-only view for the external verification harness (cfg(redb_verif) only)
+#[cfg(redb_verif)]
+impl RegionTracker {
+    // One entry per tracked region; true means the region is marked full for the given order
+    pub(crate) fn verif_full_bits(&self, order: u8) -> Vec<bool> {
+        let bitmap = &self.order_trackers[order as usize];
+        (0..bitmap.len()).map(|i| bitmap.get(i)).collect()
+    }
+
+    pub(crate) fn verif_orders(&self) -> u8 {
+        self.order_trackers.len().try_into().unwrap()
+    }
+}
